@@ -95,7 +95,7 @@ def tasks(tier, seed):
     for fam in ('MPFloat', 'MPSFloat', 'MPFixed'):
         for rm in modes:
             for s in (0, 1):
-                ops = ['RealFloat'] if tier == 'quick' and rm not in ('RNE', 'RTP') else ['RealFloat', 'Float', 'int', 'Fraction']
+                ops = ['RealFloat'] if tier == 'quick' and rm not in ('RNE', 'RTP') else ['RealFloat', 'Float', 'FloatFlagged', 'int', 'Fraction']
                 for opk in ops:
                     for meth in (['round', 'round_at'] if opk == 'RealFloat' else ['round']):
                         ts.append(dict(kind='ctx', name='sym/%s/%s/s%d/%s/%s' % (fam, rm, s, opk, meth), desc=dict(fam=fam, rm=rm),
@@ -132,10 +132,27 @@ def tasks(tier, seed):
         ov = ovs[j % len(ovs)]
         dd = dict(d, rm=rm, ov=ov)
         for s in (0, 1):
-            for opk, meth, ex in [('Float', 'round', False), ('int', 'round', False), ('RealFloat', 'round_at', False),
+            for opk, meth, ex in [('Float', 'round', False), ('FloatFlagged', 'round', False), ('int', 'round', False), ('RealFloat', 'round_at', False),
                                   ('RealFloat', 'round_integer', False), ('RealFloat', 'round', True), ('Fraction', 'round', False)]:
                 ts.append(dict(kind='ctx', name='grid/%s/s%d/%s/%s%s' % (G.name_of(dd), s, opk, meth, '/exact' if ex else ''),
                                desc=dd, s=s, op=opk, meth=meth, exact=ex))
+    # G. non-dyadic operands (Fraction / str reach gmputils.mpfr_value): the exact operand is the symbolic variable of the
+    #    MPFR glue lemma (harness/glue.py), rounded through the context's own round()
+    gl = [dict(fam='MPFloat', pmax=2), dict(fam='MPSFloat', pmax=3, emin=-1), dict(fam='IEEE', es=2, nbits=5), dict(fam='MPFixed', nmin=-1), dict(fam='MPFixed', nmin=1),
+          dict(fam='Fixed', signed=True, scale=0, nbits=5, ov='SATURATE'), dict(fam='SMFixed', scale=-1, nbits=5, ov='SATURATE'), dict(fam='MPBFixed', nmin=0, maxval=[0, 1, 5], ov='SATURATE')]
+    for d in gl:
+        for rm in (modes if tier == 'thorough' else ['RNE', 'RNA', 'RTP', 'RTZ']):
+            for neg in (0, 1):
+                for sticky in (0, 1):
+                    dd = dict(d, rm=rm)
+                    ts.append(dict(kind='glue', name='nondyadic/%s/neg%d/st%d' % (G.name_of(dd), neg, sticky), desc=dd, neg=neg, sticky=sticky))
+    # H. exponential contexts (powers of two only): in-range operands round to the correct power of two
+    for nb, eo in ((3, 0), (2, 1), (4, -3)):
+        for rm in modes:
+            for ov in ('OVERFLOW', 'SATURATE'):
+                if tier == 'quick' and ov == 'SATURATE' and rm not in ('RNE', 'RTZ'):
+                    continue
+                ts.append(dict(kind='exp', name='exp/nbits%d/eo%d/%s/%s' % (nb, eo, rm, ov), nbits=nb, eoffset=eo, rm=rm, ov=ov))
     # D. real context
     for s in (0, 1):
         for opk in ('RealFloat', 'Float', 'int'):
@@ -158,7 +175,7 @@ def tasks(tier, seed):
 
 def required_witnesses(tier):
     return ['tie', 'carry', 'exact', 'inexact', 'subnormal', 'overflow-arm', 'overflow-to-inf', 'overflow-to-max',
-            'saturate', 'wrap', 'assert-raise', 'zero-result', 'neg-zero-cleared', 'exact-raise']
+            'saturate', 'wrap', 'assert-raise', 'zero-result', 'neg-zero-cleared', 'exact-raise', 'nondyadic-two-pass', 'exp-top-value', 'exp-out-of-range']
 
 
 def describe(tier):
@@ -195,6 +212,10 @@ def run_task(task):
         return _run_selfcheck_sets(task)
     if kind == 'selfcheck_round':
         return _run_selfcheck_round(task)
+    if kind == 'glue':
+        return _run_glue(task)
+    if kind == 'exp':
+        return _run_exp(task)
     return _run_symbolic(task, task.get('tier', 'quick'))
 
 
@@ -310,6 +331,9 @@ def _run_symbolic(task, tier):
             xo = RealFloat(s, x, c); X = den(c, x)
         elif opk == 'Float':
             xo = Float(s, x, c); X = den(c, x)
+        elif opk == 'FloatFlagged':
+            # an operand that is itself the result of an earlier (overflowing, inexact) operation: its flags are history
+            xo = Float(s, x, c, overflow=True, inexact=True, invalid=True, divzero=True, carry=True, tiny_pre=True, tiny_post=True); X = den(c, x)
         elif opk == 'int':
             xo = -c if s else c; X = den(c, 0)
         elif opk == 'Fraction':
@@ -494,3 +518,120 @@ def _run_selfcheck_round(task):
         raise RuntimeError('rounding oracle self-check failed: %s' % res)
     return dict(paths=0, requires=q, unsat=q, queries=q, solve_s=time.time() - t0, extra={'selfcheck_round_queries': q},
                 witness={'selfcheck-round': 1})
+
+
+def _run_glue(task):
+    """ctx.round(<non-dyadic Fraction>): Context._round_prepare -> gmputils.mpfr_value -> mpfr_call -> _round_odd -> _round_at,
+    with the MPFR conversion replaced by its contract and the exact operand symbolic (Y + eps) * 2^-K"""
+    import z3
+    from fractions import Fraction
+    from pysym.core import explore
+    from pysym import shims
+    from pysym.values import denote_mag
+    import spec.dsl as dsl
+    from spec.dsl import lift
+    from spec import formats as F, ctxround as CR
+    from spec.rounding import round_detail
+    from .c01_common import outcome_of
+    from . import glue
+    import fpy2.number.number.reals as reals
+    import fpy2.number.context.context as cctx
+    tier = task.get('tier', 'quick')
+    W = 32; dsl.WO = 48; WO = 48
+    shims.install_int_pass(reals, cctx)
+    shims.stub_formatting()
+    desc = task['desc']; neg = bool(task['neg']); sticky = bool(task['sticky'])
+    ctx = G.build(desc); sp = F.spec_of(desc)
+    YW = 9 if tier == 'quick' else 12
+    if sp.p is not None:
+        K = sp.p + 5; ylo = 1 << (sp.p + 2)
+    else:
+        K = max(1 - sp.n, 2) + 1; ylo = 2
+    cur = {'calls': []}
+    glue.install_symbolic_result(cur)
+    samples = []
+
+    def setup(e):
+        return (e.fresh('Y', ylo, (1 << YW) - 1),)
+
+    def run(e, Y):
+        cur.update(Y=Y, K=K, sticky=sticky, neg=neg); cur['calls'] = []
+        X = (lift(Y) << 1) | (1 if sticky else 0)
+        out = outcome_of(lambda: ctx.round(Fraction(1, 3)), K + 1, lambda c, x: denote_mag(c, x, K + 1, W=WO))
+        for pr in cur['calls']:
+            e.oblige(lift(Y.bit_length()) >= lift(pr), 'model-has-fewer-digits-than-requested')
+        post = CR.post_finite(desc, sp, K + 1, neg, X, None, out)
+        d = round_detail(X, neg, sp.p, sp.n, desc['rm'], K + 1)
+        e.oblige(d['q'] >= 1, 'rounding-position-above-model-lsb')
+        if len(cur['calls']) == 2:
+            e.cover('nondyadic-two-pass', True)
+        ok = e.require(post, info={'requested': [str(c) for c in cur['calls']]})
+        if len(samples) < 2:
+            samples.append({'task': task['name'], 'exact_operand': dict(e.model_inputs(), K=K, sticky=sticky, neg=neg), 'proved': ok})
+    eng = explore(run, setup, W=W, bl_max=W - 6)
+    cexs = []
+    for cx in eng.cex:
+        if cx.get('unknown') or cx.get('inputs') is None:
+            cexs.append({'case': None})
+        else:
+            tt = {k: v for k, v in task.items() if k not in ('name', 'cost')}
+            cexs.append({'case': {'task': tt, 'inputs': cx['inputs'], 'K': K}, 'failed_obligations': cx.get('failed_obligations')})
+    return _engine_stats(eng, dict(cex=cexs, samples=samples))
+
+
+def _run_exp(task):
+    """ExpContext: members are the powers of two 2^emin..2^emax (and NaN). An operand whose 1-digit rounding lies in that
+    range must round to it; everything else must give a member (NaN, the minimum or the maximum value)."""
+    import z3
+    from pysym.core import explore
+    from pysym import shims
+    from pysym.values import denote_mag
+    import spec.dsl as dsl
+    from spec.rounding import round_detail
+    from .c01_common import outcome_of
+    import fpy2 as fp
+    from fpy2 import RealFloat
+    import fpy2.number.number.reals as reals
+    import fpy2.number.context.context as cctx
+    W = 32; dsl.WO = 48; WO = 48
+    shims.install_int_pass(reals, cctx)
+    shims.stub_formatting()
+    nb, eo, rm = task['nbits'], task['eoffset'], task['rm']
+    ctx = fp.ExpContext(nb, eo, fp.RM[rm], fp.OV[task['ov']])
+    bias = (1 << (nb - 1)) - 1 - eo
+    emin, emax = -bias, (1 << nb) - 2 - bias
+    CW, E = 5, max(abs(emin), abs(emax)) + 3
+    K = E + 2
+    samples = []
+
+    def setup(e):
+        return e.fresh('c', 1, (1 << CW) - 1), e.fresh('exp', -E, E)
+
+    def run(e, c, x):
+        X = denote_mag(c, x, K, W=WO)
+        out = outcome_of(lambda: ctx.round(RealFloat(False, x, c)), K, lambda cc, xx: denote_mag(cc, xx, K, W=WO))
+        d = round_detail(X, False, 1, None, rm, K)
+        R = d['R']
+        lo, hi = 1 << (emin + K), 1 << (emax + K)
+        inr = z3.And(R >= lo, R <= hi)
+        e.cover('exp-top-value', R == hi); e.cover('exp-out-of-range', z3.Not(inr))
+        if out['raised'] is not None:
+            post = z3.Not(inr) if out['raised'] in ('ValueError', 'OverflowError') else False
+        elif out['kind'] == 'nan':
+            post = z3.Not(inr)
+        elif out['kind'] == 'fin':
+            post = z3.And(z3.BoolVal(out['sign'] is False), z3.If(inr, z3.And(out['D'] == R, z3.BoolVal(bool(out['inexact'])) == d['inexact']), z3.Or(out['D'] == lo, out['D'] == hi)))
+        else:
+            post = False
+        ok = e.require(post, info={'outcome': _pub(out)})
+        if len(samples) < 2:
+            samples.append({'task': task['name'], 'example_input': e.model_inputs(), 'outcome': _pub(out), 'proved': ok})
+    eng = explore(run, setup, W=W, bl_max=W - 6)
+    cexs = []
+    for cx in eng.cex:
+        if cx.get('unknown') or cx.get('inputs') is None:
+            cexs.append({'case': None})
+        else:
+            tt = {k: v for k, v in task.items() if k not in ('name', 'cost')}
+            cexs.append({'case': {'task': tt, 'inputs': cx['inputs'], 'K': K}, 'failed_obligations': cx.get('failed_obligations')})
+    return _engine_stats(eng, dict(cex=cexs, samples=samples))
